@@ -442,9 +442,11 @@ func c09CheckWide(c c09WideCase) engine.Result {
 	segBase := ref.S35Seg{EventID: 7, HasDuration: true, Duration: 2700000, Web: true, Archive: true, Device: 2, UPIDType: 0x08, UPID: []byte{1, 2, 3, 4, 5, 6, 7, 8}, TypeID: 0x30, SegNum: 1, SegsExpected: 2,
 		Comps: []ref.S35Offset{{Tag: 3, Offset: 9}, {Tag: 4, Offset: 0x1FFFFFFFF}}}
 	switch c.Field {
-	case "splice_insert break_duration":
+	case "splice_insert break_duration", "splice_insert break_duration (auto_return 0)":
+		// (the bits above the 33-bit duration share their byte with auto_return and six reserved bits: with
+		// auto_return 0 a bit that leaks out of the value shows)
 		sec.CmdType = ref.S35CmdInsert
-		sec.Insert = ref.S35Insert{EventID: 3, Out: true, Program: true, Immediate: true, HasDuration: true, AutoReturn: true, Duration: 5, UniqueProgramID: 0xFFFF, AvailNum: 1, AvailsExpected: 2}
+		sec.Insert = ref.S35Insert{EventID: 3, Out: true, Program: true, Immediate: true, HasDuration: true, AutoReturn: c.Field == "splice_insert break_duration", Duration: 5, UniqueProgramID: 0xFFFF, AvailNum: 1, AvailsExpected: 2}
 	default:
 		sec.CmdType, sec.Time = ref.S35CmdTime, ref.S35Time{Specified: true, PTS: 0x123456789}
 	}
@@ -460,7 +462,7 @@ func c09CheckWide(c c09WideCase) engine.Result {
 		if engine.Guard(&res, "over-wide "+c.Field, func() {
 			s := c09Build(&sec, false)
 			switch c.Field {
-			case "splice_insert break_duration":
+			case "splice_insert break_duration", "splice_insert break_duration (auto_return 0)":
 				low33 := low & 0x1FFFFFFFF
 				c09Ins(s).SetDuration(gots.PTS(high<<33 | low33))
 				want.Insert.Duration = low33
@@ -1293,10 +1295,10 @@ func init() {
 			},
 			&engine.Enum[c09WideCase]{
 				Name: "over-wide-values",
-				Rule: "the setters that are not documented to truncate (splice_insert SetDuration, component SetPTSOffset, SetDeviceRestrictions, signal SetPTS) called with values that carry 1, 2, 3, 0x40 or 0x7FFFFFFF in the bits above their field x 5 low parts (0, 1, 5, alternating, all ones): the next encoding must be the reference encoding with the value truncated to the field width, every other field untouched (the getter is not judged)",
+				Rule: "the setters that are not documented to truncate (splice_insert SetDuration, component SetPTSOffset, SetDeviceRestrictions, signal SetPTS) called with values that carry 1, 2, 3, 0x20, 0x40, 0x7F, 0x80 or 0x7FFFFFFF in the bits above their field (break_duration with auto_return 1 and 0: the bits above the value share a byte with that flag) x 5 low parts (0, 1, 5, alternating, all ones): the next encoding must be the reference encoding with the value truncated to the field width, every other field untouched (the getter is not judged)",
 				Gen: func(r *engine.Run, emit func(c09WideCase)) {
-					for _, f := range []string{"splice_insert break_duration", "segmentation pts_offset", "segmentation device_restrictions", "signal pts"} {
-						for _, h := range []int{1, 2, 3, 0x40, 0x7FFFFFFF} {
+					for _, f := range []string{"splice_insert break_duration", "splice_insert break_duration (auto_return 0)", "segmentation pts_offset", "segmentation device_restrictions", "signal pts"} {
+						for _, h := range []int{1, 2, 3, 0x20, 0x40, 0x7F, 0x80, 0x7FFFFFFF} {
 							if f == "segmentation device_restrictions" && h > 0x3F {
 								continue
 							}
